@@ -443,7 +443,7 @@ func drawCut(t *rapid.T, fr [][]byte) int {
 // TestPropDisconnect: one drawn disconnect per history, with requests still
 // executing; every release order when at most three requests are parked.
 func TestPropDisconnect(t *testing.T) {
-	hx.Check(t, "disconnect", hx.N(110, 1500), func(t *rapid.T) {
+	hx.Check(t, "disconnect", hx.N(60, 1500), func(t *rapid.T) {
 		c := genConfig(t)
 		genHistory(t, c, 10)
 		c.Cut = drawCut(t, c.frames())
